@@ -87,7 +87,7 @@ def doc_type_ok(name: str, v) -> bool:
     if name == "heading_anchors":
         return type(v) is int and 0 <= v <= 7
     if name == "words_per_minute":
-        return type(v) is int
+        return type(v) is int and v > 0      # "a positive integer"
     if name == "mathjax_classes":
         return _is_str(v)
     if name == "heading_slug_func":
